@@ -298,7 +298,7 @@ func (r *chanRun) run() {
 		r.drain(len(w.Steps))
 	}
 	r.res.Count(1, steps)
-	if r.faulty && len(r.log) >= 6 && w.Walk%97 == 0 {
+	if (r.faulty && len(r.log) >= 6 && w.Walk%97 == 0) || os.Getenv("VERIF_C02_ONLY") != "" {
 		r.res.Sample(map[string]any{"layer": cfg.Layer, "walk": w.Walk, "file": filepath.Base(r.file), "executed": append([]any(nil), r.log...)})
 	}
 }
@@ -499,10 +499,20 @@ func (r *chanRun) applyFault(si int, op vfh.Op, prev chanState) (applied, abando
 	case "swap":
 		ok = wire.Swap(idx)
 	case "cut":
-		from := r.pick.Pick(clip([]int{sc.Prefix, sc.Prefix + pt/2, fl - 2, 1}, 1, fl-2), r.walk.Walk, si, 1)
+		// Bytes missing from a frame make the following bytes slide in (the rest of the frame, the next frame,
+		// whatever is written later).  The frame the reader sees differs from the one sent unless every byte
+		// from the cut to the end of the frame equals the byte that replaces it: with n pseudo-random bytes
+		// behind the cut that happens with probability 2^-8n, so the cut stays at least 9 bytes away from the
+		// end of the frame (a cut of the last two bytes went unnoticed once in some 10^4: the next frame
+		// happened to start with them, and the damage moved to that frame).
+		from := r.pick.Pick(clip([]int{sc.Prefix, sc.Prefix + pt/2, fl - 9, fl - sc.Tag - 1, 1}, 1, fl-9), r.walk.Walk, si, 1)
 		sz := r.pick.Pick([]int{1, sc.Tag, 2}, r.walk.Walk, si, 2)
 		to := minInt(from+sz, fl)
-		ok = wire.Cut(idx, from, to)
+		for from > 1 && !wire.CutAlters(idx, from, to) {
+			from, to = from-1, to-1 // (see CutAlters) move the cut until it really changes this frame
+			r.res.Inc("cut_moved_no_change", 1)
+		}
+		ok = wire.CutAlters(idx, from, to) && wire.Cut(idx, from, to)
 		detail["from"], detail["to"] = from, to
 	case "cuteof":
 		keep := r.pick.Pick(clip([]int{1, sc.Prefix, sc.Prefix + 1, fl / 2, fl - sc.Tag, fl - 1}, 1, fl-1), r.walk.Walk, si, 1)
@@ -606,7 +616,12 @@ func RunChannel(res *vfh.Result, cfg ChanCfg, glob string, rounds, par int) erro
 		}
 		for rd := 0; rd < rounds; rd++ {
 			for _, w := range walks {
-				if cfg.Share > 1 && (uint64(w.Walk)+uint64(vfh.Seed())+uint64(rd))%uint64(cfg.Share) != 0 {
+				if only := os.Getenv("VERIF_C02_ONLY"); only != "" {
+					// developer aid: replay a single walk, e.g. VERIF_C02_ONLY=chan_a.jsonl:13599
+					if only != fmt.Sprintf("%s:%d", filepath.Base(f), w.Walk) {
+						continue
+					}
+				} else if cfg.Share > 1 && (uint64(w.Walk)+uint64(vfh.Seed())+uint64(rd))%uint64(cfg.Share) != 0 {
 					continue
 				}
 				jobs = append(jobs, job{f, int(mpt), w, rd})
@@ -639,5 +654,3 @@ func RunChannel(res *vfh.Result, cfg ChanCfg, glob string, rounds, par int) erro
 
 // EnvInt reads an integer environment variable.
 func EnvInt(k string, def int) int { return vfh.EnvInt(k, def) }
-
-var _ = os.Getenv
